@@ -322,6 +322,18 @@ let c11 hfn zh (tree : string) (op : string) (g : string) (expand : string) (vtr
        Printf.sprintf "res=OK orig=%s val=%s new=%s root=%s origroot=%s" d0 dv (dump h2 a')
          (hb (root_of hfn (habs h2 a'))) (hb (root_of hfn (habs h2 a)))
      | Err -> "res=ERR origroot=" ^ orig_root | Panic -> "res=PANIC")
+  | "set2" ->
+    let (va, h1) = build_tree zh h (parse_sexp vtree) in
+    let rec plain = function
+      | Leaf c -> "L:" ^ hb c
+      | Pair (l, r) -> "P(" ^ plain l ^ "," ^ plain r ^ ")" in
+    let n0 = habs h1 a in
+    let second = Leaf (List.init 32 (fun _ -> byte_of_int 0x5a)) in
+    (match setter zh n0 g (expand = "1") (habs h1 va), setter zh n0 g (expand = "1") second with
+     | OK t1, OK t2 ->
+       let r1 = hb (root_of hfn t1) and r2 = hb (root_of hfn t2) in
+       Printf.sprintf "res=OK t1=%s r1=%s t2=%s r2=%s raw1=%s raw2=%s origroot=%s" (plain t1) r1 (plain t2) r2 r1 r2 orig_root
+     | Err, _ -> "res=ERR" | _, Err -> "res=ERR2" | _ -> "res=PANIC")
   | "summ" ->
     (match summarize zh hfn (habs h a) g with
      | OK n' ->
